@@ -44,7 +44,12 @@ func main() {
 	ps := pp.finish(r)
 	debugf("part 2: %.1fs", time.Since(t0).Seconds())
 
-	total := ls.evals + ls.minimEvals + ps.dbPairs + ps.memPairs
+	// ---- part 3: goroutine schedules of the preprocessor (auxiliary binary)
+	t0 = time.Now()
+	schedRule := schedulesPart(r)
+	debugf("part 3: %.1fs", time.Since(t0).Seconds())
+
+	total := ls.evals + ls.minimEvals + ps.dbPairs + ps.memPairs + r.Int("schedule_executions")
 	r.Set("states", ls.distinct+ps.memFiles)
 	r.Set("transitions", total)
 	r.Set("evaluations", total)
@@ -93,14 +98,14 @@ func main() {
 	r.Set("preproc_database_core_alphabet", dbCore[:len(db.core)])
 	r.Set("preproc_database_rocksdb_compiles", 2*ps.dbPairs)
 
-	r.Set("rule", fmt.Sprintf("part 1: for each of the 17 line types, every vector of the core option lattice (each optional field absent / explicitly default / other value, separator ',' or ':', trailing empty fields trimmed or written) plus every vector with 1..%d fields carrying an edge value (escaped bytes, wildcard, upper case, trailing/doubled dot, root, IPv6 / IPv4-mapped, 0/1/max/overflow, escaped locations ...) over the all-absent, all-default and all-other contexts; each line decoded, re-serialised, re-decoded and compiled by the real codec under 4 configurations (v1/v2 keys x CDB-style/RocksDB-style codec) with a fresh codec per decode; failing vectors are minimised by resetting options to the base. part 2: real RocksDB (v1 and v2 keys) compiled before and after the real Codec.Preprocess and the raw dumps compared for every set of <=%d lines of the %d-line alphabet plus every set of <=%d lines of its %d-line core, each set written once in alphabet order (one %% line per map, the indented %% line, the SOA serial variants, one ordinary line); the same comparison on the parsed key/value stream (dnsdata.Parse with the compiler's codec) for every sequence of <=%d lines of the full alphabet. states = distinct lines + files; transitions = oracle evaluations (incl. minimisation); nontrivial = lines whose normal form differs from the input + files changed by preprocessing", maxExtras, db.kAll, len(palphabet), db.kCore, len(db.core), kMem))
-	r.Assume = []string{
+	r.Set("rule", fmt.Sprintf("part 1: for each of the 17 line types, every vector of the core option lattice (each optional field absent / explicitly default / other value, separator ',' or ':', trailing empty fields trimmed or written) plus every vector with 1..%d fields carrying an edge value (escaped bytes, wildcard, upper case, trailing/doubled dot, root, IPv6 / IPv4-mapped, 0/1/max/overflow, escaped locations ...) over the all-absent, all-default and all-other contexts; each line decoded, re-serialised, re-decoded and compiled by the real codec under 4 configurations (v1/v2 keys x CDB-style/RocksDB-style codec) with a fresh codec per decode; failing vectors are minimised by resetting options to the base. part 2: real RocksDB (v1 and v2 keys) compiled before and after the real Codec.Preprocess and the raw dumps compared for every set of <=%d lines of the %d-line alphabet plus every set of <=%d lines of its %d-line core, each set written once in alphabet order (one %% line per map, the indented %% line, the SOA serial variants, one ordinary line); the same comparison on the parsed key/value stream (dnsdata.Parse with the compiler's codec) for every sequence of <=%d lines of the full alphabet. states = distinct lines + files; transitions = oracle evaluations (incl. minimisation); nontrivial = lines whose normal form differs from the input + files changed by preprocessing."+schedRule, maxExtras, db.kAll, len(palphabet), db.kCore, len(db.core), kMem))
+	r.Assume = append(r.Assume,
 		"well-formed = the field layouts of tinydns-data as implemented by dnsdata (docs/data_format.md), values drawn from the variant lists in lattice.go",
 		"the compiled meaning of a line includes the codec accumulator output (prefix sets / range points) of a codec that saw only that line",
 		"lines rejected by the parser are outside the property; they are counted and listed in the evidence, not judged",
 		"part 2 compiles with dnsfix.Serial on both sides and one parser worker; value order inside a key is not compared",
 		"quoting of arbitrary bytes is C17's subject; SvcParam value syntax is C18's",
-	}
+	)
 	clean()
 	r.Finish()
 }
